@@ -151,7 +151,7 @@ def worker(sub, idx, nchunks, n_lines, n_angle):
 
 def run(p):
     nchunks = 8 if p.tier != 'thorough' else 64
-    n_lines = p.n(256, 160000)
+    n_lines = p.n(256, 96000)
     n_angle = p.n(800, 32000)
     run_chunks(p, worker, nchunks, (n_lines // nchunks, n_angle // nchunks))
 
